@@ -226,6 +226,7 @@ fn c13_segchange_table() {
         now: ScionNetworkTime(kani::any()),
         interface_link_type_lookup: &lookup,
         current_interface_id: kani::any(),
+        arrival_hop_index: kani::any(),
         forwarding_key: &key,
         ignore_macs: kani::any(),
     };
@@ -326,6 +327,9 @@ fn validate_hop_setup(
         now: ScionNetworkTime(now),
         interface_link_type_lookup: &lookup,
         current_interface_id: cur_if,
+        // which hop field of the step the packet arrived with: arbitrary (the ingress-owner clause is
+        // checked at the step level in routing_step.rs)
+        arrival_hop_index: kani::any(),
         forwarding_key: &key,
         ignore_macs,
     };
